@@ -290,7 +290,7 @@ theorem step_ok {cert : Var → Cls} {env : Env} (h : Inv cert env) (nd : Val) (
     simp [okInstr] at hi
     exact ⟨inv_set h _ _ (by simp [hi, holds]), by simp [step]⟩
   | initString to => exact ⟨h, wtarget_var_local h to hi⟩
-  | call to isPtr ctx retPtr args =>
+  | call fn to isPtr ctx retPtr args =>
     simp only [okInstr, Bool.and_eq_true] at hi
     obtain ⟨⟨hto, hret⟩, hargs⟩ := hi
     refine ⟨?_, ?_⟩
@@ -309,7 +309,7 @@ theorem step_ok {cert : Var → Cls} {env : Env} (h : Inv cert env) (nd : Val) (
   | initBytes to => exact ⟨h, wtarget_var_local h to hi⟩
   | write to val => exact ⟨h, wtarget_op_local h to hi⟩
   | read to isPtr src => exact ⟨inv_set h _ _ (holds_coerce nd hi), by simp [step]⟩
-  | copy to src => exact ⟨h, wtarget_op_local h to hi⟩
+  | copy to src n => exact ⟨h, wtarget_op_local h to hi⟩
   | clone to src => exact ⟨h, wtarget_op_local h to hi⟩
   | drop v hasFn =>
     refine ⟨h, ?_⟩
@@ -318,6 +318,8 @@ theorem step_ok {cert : Var → Cls} {env : Env} (h : Inv cert env) (nd : Val) (
     | true =>
       simp [okInstr] at hi
       simpa [step] using wtarget_op_local h v (by simp [hi])
+  | eq to l r => exact ⟨inv_set h _ _ (holds_coerce nd hi), by simp [step]⟩
+  | ret v => exact ⟨h, by simp [step]⟩
   | nop => exact ⟨h, by simp [step]⟩
 
 theorem events_local {cert : Var → Cls} (instrs : List Instr)
